@@ -91,6 +91,66 @@ AMBIENT_STATE = (NONDETERMINISTIC - {'builtins.id', 'builtins.hash'}) | {
 }
 
 
+TRANSPARENT_DECORATORS = {
+    'builtins.classmethod', 'builtins.staticmethod', 'builtins.property',
+    'contextlib.contextmanager', 'typing.overload', 'typing.final',
+    'typing.no_type_check', 'abc.abstractmethod', 'functools.wraps',
+}
+CACHING_DECORATORS = {
+    'functools.lru_cache', 'functools.cache', 'functools.cached_property',
+}
+
+
+def decorator_path(prog, mi, d):
+    import ast as _ast
+    node = d.func if isinstance(d, _ast.Call) else d
+    try:
+        tgt = prog.resolve_static(mi, node, mi)
+    except Exception:
+        return None
+    return tgt[1] if isinstance(tgt, tuple) and tgt and tgt[0] == 'ext' \
+        else None
+
+
+def decorator_kind(prog, mi, d):
+    """'transparent' (the call runs the body each time), 'caching' (the
+    result may come from an earlier call) or 'unknown'."""
+    import ast as _ast
+    node = d.func if isinstance(d, _ast.Call) else d
+    try:
+        tgt = prog.resolve_static(mi, node, mi)
+    except Exception:
+        tgt = None
+    path = tgt[1] if isinstance(tgt, tuple) and tgt and tgt[0] == 'ext' \
+        else None
+    if path is None and isinstance(node, _ast.Name) and \
+            node.id in ('classmethod', 'staticmethod', 'property'):
+        path = 'builtins.' + node.id
+    if path in TRANSPARENT_DECORATORS:
+        return 'transparent'
+    if path in CACHING_DECORATORS:
+        return 'caching'
+    if isinstance(node, _ast.Attribute) and \
+            node.attr in ('setter', 'getter', 'deleter'):
+        return 'transparent'
+    return 'unknown'
+
+
+def wrappers(prog, funcs):
+    """-> (caching, unknown): 'short: @text' for the decorated ones."""
+    import ast as _ast
+    caching, unknown = [], []
+    for fi in funcs:
+        for d in getattr(fi.node, 'decorator_list', []):
+            k = decorator_kind(prog, fi.module, d)
+            txt = '%s: @%s' % (fi.short, _ast.unparse(d))
+            if k == 'caching':
+                caching.append(txt)
+            elif k == 'unknown':
+                unknown.append(txt)
+    return caching, unknown
+
+
 def ambient(path):
     if not isinstance(path, str):
         return False
@@ -348,6 +408,11 @@ def _const_type_name(x):
 
 def _b_isinstance(interp, args, kwargs, state, node):
     x, tv = args
+    if isinstance(tv, Sym) or (isinstance(tv, tuple) and
+                               any(isinstance(t_, Sym) for t_ in tv)):
+        # the class argument is a run-time value (a helper analysed on its
+        # own): an opaque boolean
+        return Sym('isinstance_dyn', _t(x), _t(tv))
     names = type_names_of(interp, tv)
     if isinstance(x, Ref):
         o = interp.obj(state, x)
@@ -538,6 +603,51 @@ def _b_dict(interp, args, kwargs, state, node):
     for k, v in kwargs.items():
         items.append((k, v))
     return interp.alloc(state, _i().DictObj(items, origin=interp.site(node)))
+
+
+def _b_dict_fromkeys(interp, args, kwargs, state, node):
+    seq = static_sequence(interp, args[0], state) if args else None
+    if seq is None:
+        raise _i().Unsupported('dict.fromkeys over a run-time iterable at %s'
+                               % interp.site(node))
+    v = args[1] if len(args) > 1 else None
+    items = []
+    for k in seq:
+        if not any(k == k2 for k2, _ in items):
+            items.append((k, v))
+    return interp.alloc(state, _i().DictObj(items, origin=interp.site(node)))
+
+
+def _b_divmod(interp, args, kwargs, state, node):
+    a, b = args
+    return (binop(interp, ast.FloorDiv(), a, b, state, node),
+            binop(interp, ast.Mod(), a, b, state, node))
+
+
+def _it_groupby(interp, args, kwargs, state, node):
+    """itertools.groupby over a compile-time sequence with keys that
+    evaluate to constants: the groups are computed."""
+    seq = static_sequence(interp, args[0], state) if args else None
+    key = args[1] if len(args) > 1 else kwargs.get('key')
+    if seq is None:
+        raise _i().Unsupported('itertools.groupby over a run-time iterable '
+                               'at %s' % interp.site(node))
+    groups = []
+    for e in seq:
+        k = e if key is None else interp.call_value(key, [e], {}, state,
+                                                    node)
+        if isinstance(k, (Sym, Ref)) or not T.is_const(k):
+            raise _i().Unsupported('itertools.groupby with a run-time key '
+                                   'at %s' % interp.site(node))
+        if groups and groups[-1][0] == k and \
+                type(groups[-1][0]) is type(k):
+            groups[-1][1].append(e)
+        else:
+            groups.append((k, [e]))
+    items = [(k, interp.alloc(state, _i().ListObj(
+        g, origin=interp.site(node)))) for k, g in groups]
+    return interp.alloc(state, _i().ListObj(items,
+                                            origin=interp.site(node)))
 
 
 def _b_range(interp, args, kwargs, state, node):
@@ -843,6 +953,9 @@ _EXT_CALLS = {
     'builtins.bytearray': _b_bytearray, 'builtins.sorted': _b_sorted,
     'builtins.list': _b_list, 'builtins.tuple': _b_tuple,
     'builtins.dict': _b_dict, 'builtins.range': _b_range,
+    'builtins.dict.fromkeys': _b_dict_fromkeys,
+    'builtins.divmod': _b_divmod,
+    'itertools.groupby': _it_groupby,
     'builtins.all': _b_all_any(True), 'builtins.any': _b_all_any(False),
     'builtins.min': _b_minmax('min'), 'builtins.max': _b_minmax('max'),
     'builtins.abs': _b_abs, 'builtins.ord': _b_ord,
@@ -1407,6 +1520,12 @@ def binop(interp, op, a, b, state, node):
         return T.mul(a, b)
     if name == 'mod' and isinstance(a, str):
         return Sym('format', a, _t(b))
+    if name in ('floordiv', 'mod') and known_int and isinstance(b, int) \
+            and not isinstance(b, bool) and b > 0 and b & (b - 1) == 0:
+        # exact for every Python int (floor semantics)
+        if name == 'floordiv':
+            return T.bitop('shr', a, b.bit_length() - 1)
+        return T.bitop('bitand', a, b - 1)
     if name in ('div', 'floordiv', 'mod'):
         nz = state.kn._decide_cmp('ne', b, 0) if isinstance(
             b, (Sym, int)) and not isinstance(b, float) else \
